@@ -52,4 +52,6 @@ Record reader_tables := mkTables {
   rt_break_rc : bool;
   rt_skip_attributes_ok : bool; (* fn skip_attributes has the expected count / (u16,u32,skip) loop shape *)
   rt_member_header : N;         (* reader.skip(2 + 2 + 2) in the first pass over fields and methods *)
+  rt_honours_fields : bool;     (* second pass: `if interests.fields { read_field } else { skip(header); skip_attributes }` *)
+  rt_honours_methods : bool;
 }.
